@@ -1,6 +1,7 @@
 package fn
 
 import (
+	"math/rand"
 	"sort"
 	"testing"
 
@@ -26,14 +27,29 @@ func TestTableGC(t *testing.T) {
 	maxN := bound("VERIF_GC_NODES", 3)
 	tb.add(rec{"maxnodes": maxN})
 	for N := 1; N <= maxN; N++ {
-		gcTables(tb, N)
+		gcTables(tb, N, 0)
+	}
+	// thorough: a sample of the four-resource graphs (all of them are 2^16 graphs x 15 x 16 role assignments)
+	if k := bound("VERIF_GC_SAMPLE4", 0); k > 0 && maxN < 4 {
+		gcTables(tb, 4, k)
 	}
 }
 
-func gcTables(tb *table, N int) {
+// gcTables emits every table over N resources; with sample > 0 only that many
+// graphs, drawn with the run's seed.
+func gcTables(tb *table, N int, sample int) {
 	names := []string{"a", "b", "c", "d"}[:N]
 	nE := N * N
-	for g := 0; g < 1<<nE; g++ {
+	graphs := 1 << nE
+	rnd := rand.New(rand.NewSource(int64(bound("VERIF_SEED", 1))*7919 + 17))
+	if sample > 0 {
+		graphs = sample
+	}
+	for gi := 0; gi < graphs; gi++ {
+		g := gi
+		if sample > 0 {
+			g = rnd.Intn(1 << nE)
+		}
 		edge := func(i, j int) bool { return g&(1<<(i*N+j)) != 0 }
 		for dm := 1; dm < 1<<N; dm++ { // at least one direct subscription
 			// loading roots: subsets of the direct roots
